@@ -215,3 +215,51 @@ From BB Require Gen.Effects Proofs.Effects Proofs.EffectsOk.
 Theorem C14_assemble_is_a_function_of_its_inputs : Proofs.Effects.summary_ok Gen.Effects.summary = true.
 Proof. exact Proofs.EffectsOk.summary_ok_holds. Qed.
 Print Assumptions C14_assemble_is_a_function_of_its_inputs.
+
+(* ---- include_bytes on the whole model (Proofs/IncBytesWhole.v: the whole model extended by Line.include_path and the include_bytes
+   branch of the parser; C10_include_bytes_model_extension) ------------------------------------------------------------------------ *)
+From BB Require Import Proofs.IncBytesWhole.
+(* with an absolute top-level path and absolute -i directories (what cli_main passes) the whole run -- embedded files, their sizes,
+   errors alike -- is the same from every working directory, PROVIDED every line that parses as include_bytes was recognised by the
+   reader ([searched]: it carries the path the search found) *)
+Theorem C14_include_bytes_cwd :
+  forall fuel fs cwd1 cwd2 incs top consts labels compress,
+    is_abs top = true -> all_abs incs -> fs_exists fs cwd1 top = true ->
+    (forall xls, read_lines_x fuel fs cwd1 incs top = ROk xls -> forallb searched xls = true) ->
+    assemble_model_x fuel fs cwd1 incs top consts labels compress = assemble_model_x fuel fs cwd2 incs top consts labels compress.
+Proof. exact whole_x_cwd. Qed.
+Print Assumptions C14_include_bytes_cwd.
+(* the embedded file is the one the include search found (search order: C14_lookup), an absolute path *)
+Theorem C14_include_bytes_found :
+  forall fuel fs cwd incs top out, read_lines_x fuel fs cwd incs top = ROk out -> Forall (tag_ok fs cwd incs) out.
+Proof. exact read_lines_x_tags. Qed.
+Print Assumptions C14_include_bytes_found.
+
+(* the proviso is needed: an INDENTED `include_bytes F N` line is not recognised by the reader (the keyword must start the raw line), so
+   nothing is searched and no size is computed; the parser takes F and N as written and resolve_include_bytes opens F relative to the
+   working directory.  Same absolute paths, three working directories, three outcomes (the real assembler does the same: b'\x01DATA',
+   AssertionError, FileNotFoundError) *)
+Theorem C14_include_bytes_as_written_refuted :
+  is_abs "/p/src/main.asm" = true /\ all_abs [] /\ fs_exists aw_fs "/p/src" "/p/src/main.asm" = true /\
+  assemble_model_x 3 aw_fs "/p/src" [] "/p/src/main.asm" [] [] false =
+    Whole.WDone {| Passes.r_chunks := [(IncBytesWhole.L "/p/src/main.asm" 1, Passes.CBytes [1]);
+                                       (IncBytesWhole.L "/p/src/main.asm" 2, Passes.CFile "blob.bin" 4)];
+                   Passes.r_consts := []; Passes.r_labels := [] |} /\
+  assemble_model_x 3 aw_fs "/q" [] "/p/src/main.asm" [] [] false = Whole.WFail (Items.PRaw AssertionError) /\
+  assemble_model_x 3 aw_fs "/" [] "/p/src/main.asm" [] [] false = Whole.WFail (Items.PRaw OtherExn).
+Proof. exact as_written_depends_on_cwd. Qed.
+Print Assumptions C14_include_bytes_as_written_refuted.
+
+(* non-vacuity of C14_include_bytes_cwd, computed: the tree of C10_include_bytes_whole_example from two working directories, one of
+   which holds a decoy blob.bin *)
+Example C14_include_bytes_cwd_example :
+  is_abs "/p/src/main.asm" = true /\ all_abs ["/p/inc"] /\ fs_exists ib_fs "/q" "/p/src/main.asm" = true /\
+  (exists xls, read_lines_x 3 ib_fs "/q" ["/p/inc"] "/p/src/main.asm" = ROk xls /\ forallb searched xls = true /\
+               map x_inc xls = [None; Some "/p/inc/blob.bin"; None]) /\
+  assemble_model_x 3 ib_fs "/q" ["/p/inc"] "/p/src/main.asm" [] [] false =
+  assemble_model_x 3 ib_fs "/p/src" ["/p/inc"] "/p/src/main.asm" [] [] false.
+Proof.
+  split; [reflexivity|]. split; [repeat constructor|]. split; [vm_compute; reflexivity|]. split.
+  - eexists. split; [vm_compute; reflexivity|]. split; vm_compute; reflexivity.
+  - vm_compute. reflexivity.
+Qed.
